@@ -26,7 +26,9 @@ PROPERTY = "C15"
 OPS = ["solve_a", "solve_b", "save", "save_user", "folder0", "folderA", "folderB", "set0", "setlast", "get0", "res0", "replacemesh", "saveload"]
 PREFIXES = {"init": ["save", "solve_a", "save"],  # iteration 0 = the initial state, saved before any solve; iteration 1 solved
             "mem": ["solve_a", "save"], "disk": ["folderA", "solve_a", "save"], "two": ["solve_a", "save", "solve_b", "save"],
-            "twomesh": ["solve_a", "save", "replacemesh", "solve_b", "save"]}
+            "twomesh": ["solve_a", "save", "replacemesh", "solve_b", "save"],
+            # a static iteration, then the time scheme is switched on and a dynamic iteration is stored (scenarios that define to_dynamic)
+            "mixed": ["solve_a", "save", "dyn", "solve_b", "save"]}
 
 MESHES = {
     "Q": lambda: Z.template_2d("QUAD4", [3, 2]),
@@ -73,11 +75,13 @@ class Scn:
         with _quiet():
             simu.Solve()
 
+    skip_ops: tuple = ("dyn",)
+
     def fields(self, simu):
         out = {}
         for pt in simu.Get_problemTypes():
             out[f"{pt}.u"] = np.array(simu._Get_u_n(pt), dtype=float)
-            if self.dynamic:
+            if self.dynamic or hasattr(self, "to_dynamic"):
                 out[f"{pt}.v"] = np.array(simu._Get_v_n(pt), dtype=float)
                 out[f"{pt}.a"] = np.array(simu._Get_a_n(pt), dtype=float)
         return out
@@ -93,6 +97,11 @@ class Scn:
 class ElasticStatic(Scn):
     name = "elastic_static"
     results = ["Svm", "Wdef"]
+    skip_ops = ()
+
+    def to_dynamic(self, simu):
+        simu.rho = 1.4
+        simu.Solver_Set_Hyperbolic_Algorithm(0.1)
 
     def build(self, mesh):
         from EasyFEA import Models, Simulations
@@ -274,7 +283,7 @@ class WeakFormScn(Scn):
 
     # the weak-form model owns the Field, which is bound to the element group of the mesh it was created on:
     # replacing the mesh of such a simulation requires a new model and is not an operation of this scenario
-    skip_ops = ("replacemesh",)
+    skip_ops = ("replacemesh", "dyn")
 
 
 def _wf_k(u, v):
@@ -388,7 +397,7 @@ def cases(tier, seed):
 def describe(tier, seed):
     depth = 2 if tier == "quick" else 3
     return {
-        "rule": f"E2 unmerged: 10 simulation scenarios x 5 prefixes (iteration 0 = initial state saved before any solve / iteration 0 kept in memory / written to disk / two stored iterations / two iterations on two meshes) x every sequence of the {len(OPS)} operations "
+        "rule": f"E2 unmerged: 10 simulation scenarios x 6 prefixes (static iteration followed by a dynamic one / iteration 0 = initial state saved before any solve / iteration 0 kept in memory / written to disk / two stored iterations / two iterations on two meshes) x every sequence of the {len(OPS)} operations "
                 f"of length 1..{depth}; after every operation: every stored iteration still equals the snapshot taken when it was saved, reading a stored iteration "
                 "leaves the live state and the count unchanged, a restore brings back the fields, mesh and internal variables of the snapshot, "
                 "Result(name, iter=0) equals the value recorded at save time, Load_Simu(Save()) has the same mesh, tags, count and stored iterations. "
@@ -499,6 +508,8 @@ def _run(case, scn, tmp):
                 simu.Save_Iter(user_info)
             snaps.append({"fields": scn.fields(simu), "named": scn.named(simu), "stored": copy.deepcopy(simu.Get_results(-1)),
                           "coords": np.array(simu.mesh.coord), "Nn": simu.mesh.Nn, "mesh": key})
+        elif op == "dyn":
+            scn.to_dynamic(simu)
         elif op.startswith("folder"):
             simu.folder = {"folder0": "", "folderA": os.path.join(tmp, "A"), "folderB": os.path.join(tmp, "B")}[op]
         elif op in ("set0", "setlast"):
